@@ -4,7 +4,7 @@ use crate::rng::Rng;
 pub fn docs(n: u64) -> i32 {
     let mut bad = 0;
     for seed in 0..n {
-        for fam in [families::Family::Rich, families::Family::TwoLeaf, families::Family::CyclicParents, families::Family::DeepTree, families::Family::RichEncrypted] {
+        for fam in [families::Family::Rich, families::Family::TwoLeaf, families::Family::CyclicParents, families::Family::DeepTree, families::Family::RichEncrypted, families::Family::Dangling] {
             let mut rng = Rng::new(rng::run_seed(1, fam.name(), seed));
             let spec = families::generate(&fam, &mut rng);
             let w = docgen::write_doc(&spec);
